@@ -515,19 +515,25 @@ pub fn c05(ctx: Arc<Ctx>) {
 // ---------------------------------------------------------------------------------------------
 // C07
 
-fn normalize(segs: &[&str]) -> Option<Vec<String>> {
-	// lexical resolution relative to the root; None if it ever climbs above the root
-	let mut out: Vec<String> = vec![];
+/// Resolution of root/<segments> the way the file system does it (lexically; the fixture has no
+/// symlinks): Some(path below the root) if the result lies inside the root - a path may leave the
+/// root and come back - and None if it names something outside.
+fn normalize(root: &[String], segs: &[&str]) -> Option<Vec<String>> {
+	let mut out: Vec<String> = root.to_vec();
 	for s in segs {
 		match *s {
 			"" | "." => {}
 			".." => {
-				out.pop()?;
+				out.pop();
 			}
 			other => out.push(other.to_string()),
 		}
 	}
-	Some(out)
+	if out.len() >= root.len() && out[..root.len()] == *root {
+		Some(out[root.len()..].to_vec())
+	} else {
+		None
+	}
 }
 
 pub fn c07(ctx: Arc<Ctx>) {
@@ -561,6 +567,10 @@ pub fn c07(ctx: Arc<Ctx>) {
 	let tfile = write_container(&rt, Cont::Versatiles, &base, "t", &mut src).expect("tile file");
 	let abs_canary = base.join("canary.txt").to_string_lossy().to_string();
 	let abs_sibling = sibling.join("canary.txt").to_string_lossy().to_string();
+	let root_comps: Vec<String> = root.canonicalize().unwrap().components().filter_map(|c| match c {
+		std::path::Component::Normal(s) => Some(s.to_string_lossy().to_string()),
+		_ => None,
+	}).collect();
 	let segs: Vec<&str> = vec!["a.txt", "d", "e.txt", "canary.txt", ".", "..", "", "%2e%2e", "%2E.", "..%2f", "%5c..", "www", "www-internal"];
 	let maxlen = ctx.tier.pick(4usize, 5usize);
 	let mut seqs: Vec<Vec<usize>> = vec![vec![]];
@@ -595,7 +605,7 @@ pub fn c07(ctx: Arc<Ctx>) {
 			});
 		}
 		let port = server.as_ref().unwrap().port;
-		let (ctxr, sq, sg, fr): (&Ctx, _, _, _) = (&ctx, &seqs, &segs, &files);
+		let (ctxr, sq, sg, fr, rc): (&Ctx, _, _, _, _) = (&ctx, &seqs, &segs, &files, &root_comps);
 		let chunks = 64usize;
 		let (absc, abss) = (&abs_canary, &abs_sibling);
 		par_for(chunks, |ci| {
@@ -622,8 +632,8 @@ pub fn c07(ctx: Arc<Ctx>) {
 								// a 200 for a path that does not resolve to this in-root file
 								if !fr.iter().any(|f| f.1 == body || codec::brotli_dec(&f.1).ok().as_ref() == Some(&body)) {
 									ctxr.violation("static handler returns content that is no file of the root", &format!("{mname}: GET {target} -> 200 {text:?}"), case);
-								} else if resolved.is_none() {
-									ctxr.violation("static handler serves a path that climbs above the root", &format!("{mname}: GET {target} -> 200 {text:?}"), case);
+								} else {
+									ctxr.violation("static handler returns another file of the root than the path names", &format!("{mname}: GET {target} -> 200 {text:?}, path resolves to {resolved:?}"), case);
 								}
 							}
 						} else if r.status == 404 {
@@ -643,13 +653,13 @@ pub fn c07(ctx: Arc<Ctx>) {
 				let parts: Vec<&str> = q.iter().map(|i| sg[*i]).collect();
 				let plain = parts.iter().all(|p| ["a.txt", "d", "e.txt"].contains(p));
 				// the server does not percent-decode: encoded segments are literal names
-				let resolved = normalize(&parts);
+				let resolved = normalize(rc, &parts);
 				for slash in [false, true] {
 					if parts.is_empty() && !slash {
 						continue;
 					}
 					let target = format!("{prefix}/{}{}", parts.join("/"), if slash && !parts.is_empty() { "/" } else { "" });
-					check(&target, resolved.clone(), plain && !parts.is_empty());
+					check(&target, resolved.clone(), plain && !parts.is_empty() && !slash);
 					if !parts.iter().all(|p| ["a.txt", "d", "e.txt", "canary.txt", "www", "www-internal"].contains(p)) {
 						ctxr.nontrivial(fnv_str(&format!("{mi}{target}")));
 					}
